@@ -53,7 +53,8 @@ ASSUMPTIONS = [
     "validated by the outputs (every output yielded while its completing arrival was the last one pulled, at least one "
     "before the end of the stream); otherwise they are unjudged (probes attribution_inconsistent / attribution_unvalidated)",
     "a 'warning' is a warnings.warn() of any category and text, or a WARNING-level log record of a space_packet_parser "
-    "logger (the framer's own logger is ignored when the stream has a torn tail); warnings are required only at arrivals the model drops with a warning: CONT/LAST with no "
+    "logger (the framer's own logger is ignored when the stream has a torn tail); a warning is required at the FIRST orphan "
+    "segment and at the FIRST gapped group of each APID (later ones may be rate-limited); warnings are required only at arrivals the model drops with a warning: CONT/LAST with no "
     "open group and a LAST closing a group with a sequence gap; only in the one-arrival-per-recv configuration, where a "
     "warning is attributable to an arrival; all other warnings are unjudged",
     "outputs are compared by raw_data; the definition is header-only so decoded values are not in play",
@@ -367,9 +368,12 @@ def run(ch, render=False):
     if srckind == "bytes":
         source = stream
     elif srckind == "file":
-        source = io.BufferedReader(SimRaw(w, stream), buffer_size=ch.pick((8192, 16, 1), "bufsize"))
+        raw12 = SimRaw(w, stream)
+        raw12.eof_budget = 8 + len(arrivals)          # a framer may poll end-of-file once per packet; many packets yield nothing here
+        source = io.BufferedReader(raw12, buffer_size=ch.pick((8192, 16, 1), "bufsize"))
     else:
         pipe = Pipe(w)
+        pipe.eof_budget = 8 + len(arrivals)
         if srckind == "socket1":
             heads = [k + len(a[3]) for a in arrivals]
             pos = [0]
@@ -443,6 +447,8 @@ def run(ch, render=False):
                         err = ("too_many_items", f"more than {n_arr + 2} outputs from {n_arr} arrivals")
                         break
                     item = next(gen)
+                    if pipe is not None:
+                        pipe.eof_reads = 0
                     at = pulled[0] - 1
                     rd = getattr(item, "raw_data", None)
                     observed.append((at, bytes(rd) if rd is not None else None, type(item).__name__))
@@ -483,6 +489,8 @@ def run(ch, render=False):
             if rd is None:
                 out.fail("wrong_type", f"output of type {tn} has no raw_data ({desc})")
                 break
+    must_warn = set()
+
     def accept(per_arrival_mode):
         """Run the reference model over the history against the observed outputs. ``per_arrival_mode`` False: only the
         sequence of outputs is judged; True: additionally each output must come at its arrival and required warnings
@@ -521,7 +529,7 @@ def run(ch, render=False):
                                           f"must not produce an output, but {len(observed[pos][1])}B "
                                           f"{observed[pos][1][:24].hex()} was yielded there")
                             continue
-                        if per_arrival_mode and warn_req and i not in warned_at:
+                        if per_arrival_mode and warn_req and i in must_warn and i not in warned_at:
                             why = why or ("missing_warning", f"arrival {i} ({FLAG_NAME[flag]} apid {apid} count {cnt}) is "
                                           f"dropped by the model with a warning; no warning was raised while it was handled")
                             continue
@@ -548,11 +556,21 @@ def run(ch, render=False):
             #     every output "at" the last arrival).
             emits = []
             st_ = {}
+            seen_kinds = set()
             for i, (apid, flag, cnt, pkt) in enumerate(arrivals):
-                (ns, emit, _wr), = transitions(st_.get(apid), i, flag, consecutive_of)
+                was_open = st_.get(apid) is not None
+                (ns, emit, wr_), = transitions(st_.get(apid), i, flag, consecutive_of)
                 st_[apid] = ns
                 if emit is not None:
                     emits.append(i)
+                if wr_:
+                    # "dropped with a warning where applicable": the first orphan segment of an APID and the first gapped
+                    # group of an APID must be warned about; whether every later one warns again (or is rate-limited,
+                    # warn-once) is not something the statement fixes
+                    kind_ = (apid, "gap" if was_open else "orphan")
+                    if kind_ not in seen_kinds:
+                        seen_kinds.add(kind_)
+                        must_warn.add(i)
             ats = [o[0] for o in observed]
             if ats != emits:
                 w.probe("attribution_inconsistent")          # frames ahead: outputs judged by sequence only, warnings unjudged
